@@ -75,6 +75,17 @@ def lengths_ok(it):
     return True
 
 
+def crate_configs(tier):
+    return [{"name": ID.lower()}, {"name": ID.lower() + "probe", "kind": "genprobe"}]
+
+
+def query_in_config(cfg, kind, args):
+    return (kind == "struct") == (cfg.get("kind") == "genprobe")
+
+
+probe_command = S.struct_probe_command
+
+
 def build_corpus(tier, rng):
     c = Corpus(ID)
     thorough = tier == "thorough"
@@ -98,6 +109,9 @@ def build_corpus(tier, rng):
         vals = RR.sample_values(it)
         c.meta[k]["vals"] = vals
         c.add_q(k, "names", [], note="names")
+        if not deprecated:
+            c.add_q(k, "struct", ["Display"], note="structure")
+            c.add_q(k, "struct", ["AsRefStr"], note="structure")
         for j, (i, _, tag) in enumerate(vals):
             if info["variants"][i]["disabled"]:
                 continue
@@ -110,7 +124,13 @@ def render_def(k, it, meta, cfg):
     return S.render_strings(k, it, meta, cfg)
 
 
+def extra_coverage(corpus, tier):
+    return S.struct_coverage()
+
+
 def compare(corpus, k, kind, args, note, iobs, mobs, cfg):
+    if kind == "struct":
+        return S.compare_struct(corpus, k, iobs, mobs)
     ok, nt, detail = S.compare_strings(corpus, k, kind, args, note, iobs, mobs, cfg)
     info = corpus.meta[k]["info"]
     # the property's own statement, evaluated on the model's answer: it is the canonical name
